@@ -100,6 +100,38 @@ fn small_dict(kind: u8, with_user: bool, with_mapper: bool) -> vibrato::Dictiona
     vibrato::Dictionary::verif_from_parts(sys, user, conn, mapper, prop, unk)
 }
 
+/// char.def used by the C03 table harness; the oracle in kani/src/c03.rs spells out the same lines.
+const CHARDEF_TEXT: &str = "DEFAULT 0 1 0
+SPACE 0 1 0
+ALPHA 1 1 0
+KANJI 0 0 2
+EDGE 1 0 3
+0x0020 SPACE
+0x0041..0x005A ALPHA
+0x0050..0x0052 KANJI ALPHA
+0x4E00..0x9FFF KANJI
+0x9FFF ALPHA
+0xFFFE..0xFFFF EDGE
+";
+
+/// The table the *current* `CharProperty::from_reader` builds for CHARDEF_TEXT (all entries), and
+/// the head of the table for the same file with one more line covering U+0000.
+fn emit_chardef(out: &mut String) {
+    let prop = CharProperty::from_reader(CHARDEF_TEXT.as_bytes()).unwrap();
+    let raw: Vec<u32> = prop.verif_chr2inf().iter().map(|c| c.verif_raw()).collect();
+    writeln!(out, "/// char.def of the C03 table harness").unwrap();
+    writeln!(out, "pub const CHARDEF_TEXT: &str = {:?};", CHARDEF_TEXT).unwrap();
+    writeln!(out, "/// raw CharInfo table built by the current CharProperty::from_reader from CHARDEF_TEXT").unwrap();
+    writeln!(out, "pub static CHARDEF_TABLE: [u32; {}] = {:?};", raw.len(), raw).unwrap();
+    let names: Vec<String> = prop.verif_categories().to_vec();
+    writeln!(out, "pub const CHARDEF_CATEGORIES: [&str; {}] = {:?};", names.len(), names).unwrap();
+    let text0 = format!("{CHARDEF_TEXT}0x0000 ALPHA\n");
+    let prop0 = CharProperty::from_reader(text0.as_bytes()).unwrap();
+    let head: Vec<u32> = prop0.verif_chr2inf().iter().take(4).map(|c| c.verif_raw()).collect();
+    writeln!(out, "/// first 4 entries of the table for CHARDEF_TEXT + \"0x0000 ALPHA\"").unwrap();
+    writeln!(out, "pub const CHARDEF0_HEAD: [u32; 4] = {:?};", head).unwrap();
+}
+
 fn emit_images(out: &mut String) {
     for (name, kind, user, mapper) in [
         ("IMG_MATRIX", 0u8, false, false),
@@ -145,6 +177,7 @@ fn main() {
     emit_lex(&mut out, "LEX_FULL2", &[a, b, aa, ab, ba, "\u{2}\u{2}"]);
     emit_lex(&mut out, "LEX_DEEP", &[a, aa, aab, aba, b]);
     emit_images(&mut out);
+    emit_chardef(&mut out);
     let mut f = std::fs::File::create(format!("{dir}/gen.rs")).unwrap();
     f.write_all(out.as_bytes()).unwrap();
 }
